@@ -114,7 +114,10 @@ def classify_mutation(ctx: Ctx, m, fresh_owners) -> str:
     bases = [o for o in m.bases if o.kind not in ('cls', 'func', 'module', 'extmod', 'builtin', 'bm', 'extmeth')]
     if not bases:
         return ''
-    # the characteristics queue
+    # the characteristics queue: the DEPQ itself and the bookkeeping of its wrapper
+    qc = ctx.ix.find_cls('CharacteristicsQueue')
+    if qc is not None and all(o.cls is not None and o.cls.is_subclass_of(qc) for o in bases):
+        return ''
     if m.kind == 'extcall' and all(o.kind == 'ext' and o.extra and o.extra[0] == 'xcls' and 'DEPQ' in o.extra[1]
                                    for o in bases):
         return ''
